@@ -91,6 +91,42 @@ def run(tier, seed):
                 except Exception as ex:  # noqa
                     rep.violation("hierarchy.evaluate", "raised-" + type(ex).__name__, dict(detail, message=str(ex)[:200]))
         ev.sample({"model": cfg, "row": rows[len(rows) // 2]})
+    # hierarchy.evaluate as a composition (MC_C17_eval): levels of the estimate starting late / ending early or late are
+    # aligned to the reference's span by specification, then the three measures
+    for cfg in ("MC_C17_eval", "MC_C17_evalL"):
+        cfg = cfg + ("_T" if thorough else "")
+        res = tlc.run("MC_C17_eval", cfg=cfg, timeout=3400, heap="8g")
+        rows = res["rows"]["ROW"]
+        if len(rows) * 2 != res["distinct"]:
+            raise Machinery("%s: %d rows for %d states" % (cfg, len(rows), res["distinct"]))
+        ev.tlc(cfg, res, "alignment (AdjustSpec per level) composed with the triplet definition; invariants Aligned, InRange")
+        for k, r in enumerate(rows):
+            if not thorough and (k + seed) % 2:
+                continue
+            ri, rl = hier(r["ref"])
+            ei, el = hier(r["est"])
+            fs = r["fs"] * U
+            kw = {"frame_size": fs}
+            if r["w"]:
+                kw["window"] = r["w"] * fs
+            o = r["out"]
+            vals = {k2: float(frac(o[k2])) for k2 in ("tpr", "trr", "tpf", "trf", "lp", "lr")}
+            want = [vals["tpr"], vals["trr"], fmeasure(vals["tpr"], vals["trr"], 1.0), vals["tpf"], vals["trf"], fmeasure(vals["tpf"], vals["trf"], 1.0),
+                    vals["lp"], vals["lr"], fmeasure(vals["lp"], vals["lr"], 1.0)]
+            detail = {"ref": r["ref"], "est": r["est"], "unit_seconds": U, "kwargs": kw, "aligned_est": o["estA"]}
+            total += 1
+            try:
+                d = h.evaluate(ri, rl, ei, el, **kw)
+                got = [float(x) for x in d.values()]
+            except Exception as ex:  # noqa
+                rep.violation("hierarchy.evaluate", "raised-" + type(ex).__name__, dict(detail, message=str(ex)[:200]))
+                continue
+            bad = [i for i, (g, w_) in enumerate(zip(got, want)) if abs(g - w_) > 1e-9]
+            if bad or len(got) != 9:
+                rep.violation("hierarchy.evaluate", "aligned/value-differs@" + list(d.keys())[bad[0]] if bad else "arity",
+                              dict(detail, got=got, expected=want))
+            ev.case(("eval", r["ref"], r["est"], r["w"], r["fs"]), nontrivial=r["est"] != r["ref"] and o["estA"] != r["est"])
+        ev.sample({"model": cfg, "row": rows[len(rows) // 2]})
     ev.cov["traces_validated_against_impl"] = total
     ev.cov["rule"] = ("every pair of hierarchies of the models x windows x reduced/full (T) and labelled pairs (L; every third row in "
                       "the quick tier), random beta; compared to 1e-9 with the exact rationals of the triplet definition; "
